@@ -9,7 +9,7 @@ import common
 def main():
     st = common.run_extract()
     import glob
-    props = sorted('CppUtil.Props.' + os.path.basename(p)[:-5] for p in glob.glob(os.path.join(common.LEAN, 'CppUtil', 'Props', 'C[0-9][0-9].lean')))
+    props = sorted('CppUtil.Props.' + os.path.basename(p)[:-5] for p in glob.glob(os.path.join(common.LEAN, 'CppUtil', 'Props', 'C[0-9][0-9]*.lean')))
     ok, out = common.lake_build([])
     if ok:
         ok, out2 = common.lake_build(props)   # all property modules (and the proofs they import)
